@@ -85,6 +85,19 @@ def modelCompileOpt (src : Bytes) : Option Bytes :=
   | .ok sql => some sql
   | _ => none
 
+/-- drop the position of a compile error at the head of a result ("ERR 3 5 …" ↦ "ERR …") -/
+def normHead (impl : String) : String :=
+  match impl.splitOn " " with
+  | "ERR" :: a :: b :: rest => if a.toInt?.isSome && b.toInt?.isSome then " ".intercalate ("ERR" :: rest) else impl
+  | _ => impl
+
+def histOracle (impl : String) : List String :=
+  (if (impl.splitOn " ").contains "NONDET" then ["c14-result-depends-on-history"] else []) ++
+  (if (impl.splitOn " ").contains "PS-NONDET" then ["c14-parse-or-scan-nondeterministic"] else []) ++
+  (if (impl.splitOn " ").contains "PARAMS-CHANGED" then ["c14-parameter-map-modified"] else []) ++
+  (if (impl.splitOn " ").contains "RACE" then ["c14-data-race"] else []) ++
+  (if (impl.splitOn " ").contains "PANIC" then ["c12-panic"] else [])
+
 structure Verdict where
   model : String
   oracle : List String := []
@@ -167,6 +180,16 @@ def runOp (op : String) (fields : List String) (impl : String) : Option Verdict 
           (if out == Bytes.toHexField spec.out && (code != "0") == spec.exitNonZero then ["c16-error-count-differs"] else [])
         | _ => ["unreadable-result"]
     pure { model := fmtCli (cliMain modelCompileOpt input), oracle }
+  | "HIST", [h, ps, _g, _k] => do
+    let s ← Bytes.ofHex h
+    let params ← parseParams ps
+    let m := fmtCompile (compile params s) ++ " SAME PARAMS-OK PS-SAME"
+    pure { model := if m == normHead impl then impl else m, oracle := histOracle impl }
+  | "FIRSTUSE", [h, ps, _n] => do
+    let s ← Bytes.ofHex h
+    let params ← parseParams ps
+    let m := fmtCompile (compile params s) ++ " SAME"
+    pure { model := if m == normHead impl then impl else m, oracle := histOracle impl }
   | "PARSEV", [h] => do
     let s ← Bytes.ofHex h
     pure { model := fmtParse (parse s), oracle := ParseOracle.clauses s impl true }
